@@ -78,7 +78,7 @@ BOUNDS = {
     },
     "C12": {
         "quick": "chars < U+0250; strings of 1 rune < U+0250; ints |i| < 10^5; literals of 1..3 digits; nested shapes of 2 atoms; offsets: 21 printed values (negative numbers, signed exponents, hex, ULL, Inf/NaN, strings and chars holding '-') placed at every rune offset 0..23 (thorough 0..43) behind a prefix of complete atoms.",
-        "thorough": "chars < U+1000; strings of 1..2 runes < U+0250; ints |i| < 10^9.",
+        "thorough": "chars < U+1000; strings of 1..2 runes < U+0250; ints as quick (six or more digits: solver unknown at 30 s); offsets 0..43.",
         "assumptions": ["decimal printing of symbolic ints uses the engine's digit model", "outside: floats (strconv.FormatFloat/ParseFloat on symbolic values is not encodable), hashes through eval, symbols with unusual names, runes above the bound (the full range did not finish in 25 minutes)"],
     },
     "C11": {
